@@ -299,7 +299,16 @@ pub fn gen_case(rg: &mut Rg, rule: &str) -> Case {
             let lits = ["x{0}", "{}", "{name}", "{0:>4}", "pre {a} post", "{{}}{0}", "{x:?}"];
             let l = *rg.pick(&lits);
             let extra = if rg.chance(1, 3) { ", serialize = \"plain\"" } else { "" };
-            let (s, p) = assemble(rg, &[], "", &[format!("#[strum(to_string = \"{}\"{})] Unit", l, extra)], false);
+            // the placeholder reaches the printed name through to_string, through the (longest) serialize
+            // literal, or through the enum's prefix
+            let (s, p) = match rg.below(4) {
+                0 | 1 => assemble(rg, &[], "", &[format!("#[strum(to_string = \"{}\"{})] Unit", l, extra)], false),
+                2 => assemble(rg, &[], "", &[format!("#[strum(serialize = \"long name with {}\", serialize = \"s\")] Unit", l)], false),
+                _ => {
+                    let (s, p) = assemble(rg, &[format!("#[strum(prefix = \"pre{}\")]", l)], "", &[], false);
+                    (s.replace("{\n}", "{\n    Only,\n}"), format!("via prefix {}", p))
+                }
+            };
             source = s;
             variation = format!("lit[{}] {}", l, p);
             must = d(&["Display"]);
